@@ -2175,8 +2175,9 @@ pub fn set_index(
                     }
                     Ok(())
                 } else {
-                    todo!("assgn to slice")
-                    // set_index(pythonic_mut(&mut Rc::make_mut(v), i)?, rest, value)
+                    Err(NErr::type_error(format!(
+                        "can't assign to a list slice (only every-assignment to a slice is implemented)"
+                    )))
                 }
             }
             (Seq::String(s), EvaluatedIndexOrSlice::Index(i)) if rest.is_empty() => match value {
